@@ -52,10 +52,18 @@ def discharge(ob: Obligation, timeout_ms: int, use_cvc5=False):
     for p in ob.premises:
         s.add(p)
     if ob.kind == "cover":
+        s.set("timeout", min(timeout_ms, 3000))
         s.add(ob.claim)
         r = s.check()
+        if r == z3.unknown:
+            r = _sat_without_definitions(ob, [ob.claim], timeout_ms)
         st = "covered" if r == z3.sat else ("uncovered" if r == z3.unsat else "unknown")
         return {"status": st, "solver": "z3", "time_s": time.time() - t0, "model": None}
+    if z3.is_false(ob.claim):
+        # a contract clause that is false as a plain fact of the explored path: refuted iff the path is feasible
+        r0 = _sat_without_definitions(ob, [], timeout_ms)
+        if r0 == z3.sat:
+            return {"status": "refuted", "solver": "z3", "time_s": time.time() - t0, "model": "(claim is false on this feasible path)", "model_obj": None}
     s.add(z3.Not(ob.claim))
     s.set("timeout", min(2000, timeout_ms))
     r = z3.unknown if ob.info.get("prefer") == "ratnf" else s.check()
@@ -105,6 +113,19 @@ def discharge(ob: Obligation, timeout_ms: int, use_cvc5=False):
             res["status"] = "solver-disagreement"
     res["time_s"] = time.time() - t0
     return res
+
+
+def _sat_without_definitions(ob, extra, timeout_ms):
+    from .ctx import DEFINITIONAL
+
+    s = z3.Solver()
+    s.set("timeout", min(timeout_ms, 5000))
+    for p in ob.premises:
+        if p.get_id() not in DEFINITIONAL:
+            s.add(p)
+    for e in extra:
+        s.add(e)
+    return s.check()
 
 
 def _model_str(m, limit=4000):
